@@ -9,6 +9,9 @@ VERIF = os.path.dirname(os.path.dirname(os.path.abspath(__file__)))
 COMMON_NOTE = ('Decided for the pure-Python implementations imported from /repo/src (no Cython/meson in the sandbox, '
                'so .pyx accelerators cannot be rebuilt or observed). Bounded: silent outside the stated alphabet/depth. ')
 
+# properties whose check is complete enough to be claimed
+BUILT = {'C01', 'C02', 'C03'}
+
 # id -> (category, technique, text, note, design_ref)
 T = {
  'C01': ('exploration', 'bounded exhaustive input enumeration (all trees <= n nodes, all strings <= L in each syntactic role, every Unicode scalar) x serialise/parse configurations against a structural reference',
@@ -79,7 +82,7 @@ def main() -> None:
     na = []
     for pid in sorted(T):
         cat, tech, text, note, ref = T[pid]
-        if os.path.exists(os.path.join(VERIF, 'checks', pid.lower() + '.py')):
+        if pid in BUILT and os.path.exists(os.path.join(VERIF, 'checks', pid.lower() + '.py')):
             checks.append({
                 'property_id': pid,
                 'quick_cmd': f'./check {pid} --tier quick',
